@@ -137,6 +137,8 @@ class SyncInterpreter(BaseInterpreter[TContext, TEvent]):
         self._is_processing: bool = False
         #: Chain depth of the event being processed, and the thread doing it.
         self._chain_depth: int = 0
+        #: Actor ids of the child machines invoked by each active state.
+        self._invoked_actor_ids: Dict[str, List[str]] = {}
         #: Events processed so far in the chain of the event being handled
         #: (a one-element list shared by every event the chain produces).
         self._chain_count: List[int] = [0]
@@ -1295,6 +1297,11 @@ class SyncInterpreter(BaseInterpreter[TContext, TEvent]):
             """Starts the child and cleans up when it's done or stopped."""
             try:
                 # 🚀 Start the actor in the background thread.
+                # 🪦 Stopped or superseded before this thread got to run:
+                #    `stop()` on a not-yet-started interpreter is a no-op, so
+                #    starting it now would bring a forgotten actor to life.
+                if self._actors.get(actor_id) is not child:
+                    return
                 child.start()
                 # 🔄 Keep the thread alive while the child runs.
                 while child.status == "running":
@@ -1371,6 +1378,18 @@ class SyncInterpreter(BaseInterpreter[TContext, TEvent]):
         Args:
             state (StateNode): The state whose timers should be cancelled.
         """
+        # 🤖 Stop the child machines this state invoked. Nothing did: a child
+        #    whose invoking state was left kept running (timers, actions, its
+        #    own actors) until the parent itself was stopped, and a late
+        #    completion still reported `done.invoke`.
+        for actor_id in self._invoked_actor_ids.pop(state.id, []):
+            child = self._actors.pop(actor_id, None)
+            if child is None:
+                continue
+            self._actor_sources.pop(actor_id, None)
+            self._unregister_from_system(child)
+            child.stop()
+
         state_prefix = f"{state.id}::"  # our internal key scheme
         to_cancel = [
             k
@@ -1513,6 +1532,10 @@ class SyncInterpreter(BaseInterpreter[TContext, TEvent]):
                 ),
                 Event(type=f"invoke.{invocation.id}"),
                 on_complete=invocation.id,
+            )
+            # 🔗 The child lives exactly as long as the invoking state.
+            self._invoked_actor_ids.setdefault(owner_id, []).append(
+                f"{self.id}:{invocation.id}"
             )
             return
 
